@@ -202,8 +202,8 @@ func c20Calls(thorough bool) []jcall {
 	u := ref.B32Encode(c20Key)
 	secrets := []string{u, strings.ToLower(u), " " + ref.B32Encode([]byte("x")) + "== "}
 	counters := []any{0, 1, 59, 1<<31 - 1, 1 << 31, uint64(1) << 32, uint64(1)<<53 - 1, uint64(1) << 53}
-	digits := []string{"6", "8", "9", "10", "7", "06", "x"}
-	algos := []string{"SHA1", "SHA256", "SHA512", "sha1", "MD5"}
+	digits := []string{"6", "8", "9", "10", "7", "06", "x", " 8", "8 ", "10.0", "８"}
+	algos := []string{"SHA1", "SHA256", "SHA512", "sha1", "MD5", "sha256", "Sha512", " SHA256", "SHA-256", "SHA2"}
 	periods := []any{1, 29, 30, 60, 3600}
 	for _, s := range secrets {
 		for _, c := range counters {
@@ -224,7 +224,7 @@ func c20Calls(thorough bool) []jcall {
 	for si, s := range secrets[:2] {
 		for _, c := range []uint64{0, 1, 5, 1 << 32, 1<<53 - 12} {
 			for di, d := range []string{"6", "8", "9", "10", "7"} {
-				for ai, al := range []string{"SHA1", "SHA256", "SHA512", "MD5"} {
+				for ai, al := range []string{"SHA1", "SHA256", "SHA512", "MD5", "sha512", "Sha256"} {
 					for sk := 0; sk <= 10; sk++ {
 						if !thorough && (si+di+ai+sk)%3 != 0 {
 							continue
@@ -248,7 +248,7 @@ func c20Calls(thorough bool) []jcall {
 		}
 		for _, ts := range []int64{59, 1111111109, 1 << 32} {
 			for di, d := range []string{"6", "8", "10", "7"} {
-				for ai, al := range []string{"SHA1", "SHA256", "SHA512"} {
+				for ai, al := range []string{"SHA1", "SHA256", "SHA512", "sha256"} {
 					for sk := 0; sk <= 10; sk++ {
 						for pi, per := range []int64{1, 30, 3600} {
 							if !thorough && (si+di+ai+sk+pi)%4 != 0 {
